@@ -306,8 +306,10 @@ def export_slice(slize: Slice) -> vckt.Slice:
 
 def export_concat(concat: Concat) -> vckt.Concat:
     """Export (potentially recursive) Signal Concatenations"""
+    # Hdl21 concatenations are ordered "Python style", with their least-significant part first.
+    # VLSIR concatenations, like VLSIR buses, are read most-significant first.
     pconc = vckt.Concat()
-    for part in concat.parts:
+    for part in reversed(concat.parts):
         pconc.parts.append(export_connection_target(part))
     return pconc
 
